@@ -596,11 +596,12 @@ def radix_overflow_fallback(ctx):
                     elif isinstance(d, tuple) and d and d[0] == 'adt' and len(d) >= 3:
                         names.append(d[2])
                     else:
-                        cv = _const_variant(mir, b, o)
+                        cur = absint.CURRENT[-1].b if absint.CURRENT else b      # the body being evaluated (a helper `is_overflow(kind)`)
+                        cv = _const_variant(mir, cur, o)
                         if cv is None:
                             # a local holding a reference to a promoted constant
-                            kk, cc = mirq.chase_op(b, o)
-                            cv = _const_variant(mir, b, {'const': cc}) if kk == 'const' else None
+                            kk, cc = mirq.chase_op(cur, o)
+                            cv = _const_variant(mir, cur, {'const': cc}) if kk == 'const' else None
                         names.append(cv)
                 if all(n in INT_ERROR_KINDS for n in names):
                     return (names[0] == names[1]) == nm.endswith('::eq')
